@@ -68,6 +68,20 @@ Proof.
 Qed.
 Print Assumptions C03_history.
 
+(* LookupDB takes the radius per lookup: a history of lookups at ANY radii leaves the database unchanged and a later
+   answer is the one-shot answer for ITS OWN radius (nothing is remembered from an earlier radius) *)
+Definition ldb_lookup (refs : list str) (kq : nat * list str) : list str * list (nat * nat * nat) :=
+  (refs, lookupdb_two (fst kq) refs (snd kq)).
+Definition ldb_run (refs : list str) (h : list (nat * list str)) : list str := fold_left (fun s kq => fst (ldb_lookup s kq)) h refs.
+Theorem C03_history_lookupdb : forall refs (h : list (nat * list str)) k queries,
+  ldb_run refs h = refs /\ snd (ldb_lookup (ldb_run refs h) (k, queries)) = lookupdb_two k refs queries.
+Proof.
+  intros refs h k queries. assert (E: ldb_run refs h = refs).
+  { unfold ldb_run. induction h as [|q h IH]; simpl; auto. }
+  split; auto. now rewrite E.
+Qed.
+Print Assumptions C03_history_lookupdb.
+
 Theorem C03_brute_force_agrees : forall k refs queries t,
   In t (symdel_two k refs queries) <-> In t (all_pairs_cross (keep_lev k) refs queries).
 Proof.
